@@ -223,6 +223,35 @@ pub fn line<'a, R: Reader<Offset = usize> + 'a>(
             || ins.next_instruction(&header),
             |ctx, i| log_instruction(ctx, &i, &header),
         );
+        // 1b. the state machine driven by hand through the public pieces, the way
+        //     `write::ConvertLineProgram` does it: reset, then execute each instruction
+        {
+            let mut p = prog.clone();
+            let mut row = gimli::LineRow::new(&header);
+            let mut ins = header.instructions();
+            let mut emitted = false;
+            drain(
+                ctx,
+                "line.row.execute",
+                n,
+                Fused::No,
+                || match ins.next_instruction(&header)? {
+                    None => Ok(None),
+                    Some(i) => {
+                        if emitted {
+                            row.reset(&header);
+                        }
+                        emitted = row.execute(i, &mut p)?;
+                        Ok(Some((emitted, row)))
+                    }
+                },
+                |ctx, (e, r)| {
+                    if e {
+                        ev!(ctx, "hand row {:#x} op={} line={:?} file={} end={}", r.address(), r.op_index(), r.line(), r.file_index(), r.end_sequence());
+                    }
+                },
+            );
+        }
         // 2. one-shot rows
         let mut rows = prog.clone().rows();
         let mut mon = RowMonitor::new(header.address_size());
